@@ -441,6 +441,7 @@ inc:  // Algorithm for incY != 1 ( split loads in kernel )
 	CMPQ    INC_Y, $0
 	CMOVQLT TMP1, TMP2
 	LEAQ    (Y_PTR)(TMP2*1), Y_PTR // TMP2 is a byte offset: INC_Y is already scaled
+	MOVQ    Y_PTR, Y               // the rows after the first block restart from here
 
 	SHRQ $2, M
 	JZ   inc_r2
